@@ -155,6 +155,32 @@ def expected_colors(case, ocolors):
     return exp
 
 
+def leaf_label_fails(name, label):
+    mark = BS + "textsubscript{"
+    if label.count(mark) != 1 or not label.endswith("}"):
+        return "expected <text>" + mark + "<text>}"
+    head, sub = label[:-1].split(mark)
+    parts = []
+    for piece in (head, sub):
+        out, i = [], 0
+        while i < len(piece):
+            c = piece[i]
+            if c == BS:
+                if i + 1 >= len(piece) or piece[i + 1] not in (BS, "_"):
+                    return "a backslash of the name is not escaped"
+                out.append(piece[i + 1])
+                i += 2
+                continue
+            if c == "_":
+                return "an underscore of the name is not escaped"
+            out.append(c)
+            i += 1
+        parts.append("".join(out))
+    if name not in (parts[0] + "_" + parts[1],):
+        return f"the label reads {parts[0]!r} + subscript {parts[1]!r}, which is not the name split at an underscore"
+    return None
+
+
 def label_width_fails(case, lay, onode, syn, ordered, width, tag):
     """Wrapped labels of ONE drawing: no multi-word line longer than that drawing's width, no more lines than greedy wrapping."""
     fails = []
@@ -241,8 +267,16 @@ def render_fails(case, desc, m, syn, ordered, orientation, sizes, per_kind, para
             if not ok:
                 fails.append(f"{tag}: label of {case.O.name[u]} is {label!r}, families {list(syn[u])}")
     else:
+        # leaves drawn without a synteny label show their own name, split at ONE underscore into text + subscript: the label with the
+        # subscript markup removed must be properly escaped text whose content is the leaf's name minus one underscore
+        by_leaf = {name_of[id(g)]: br.name for L in lay.values() for g, br in L.branches.items() if not isinstance(g, PseudoGene)}
         for u in case.O.leaves:
-            pass
+            nm, label = case.O.name[u], by_leaf.get(u)
+            if label is None or not nm or "_" not in nm:
+                continue
+            f = leaf_label_fails(nm, label)
+            if f:
+                fails.append(f"{tag}: leaf label of {nm!r} is {label!r}: {f}")
     # species labels
     for sp in case.S.leaves:
         nm = case.S.name[sp]
@@ -389,7 +423,7 @@ def decorate(rng, desc):
     d = RC.documented_names(desc)
     ol = sorted(d["leafmap"])
     sl = sorted(set(c14_leaves(H.totuple(d["st"]))))
-    po = {l: funny(rng, "g", "") + "_" + str(i) for i, l in enumerate(ol)}
+    po = {l: funny(rng, "g", "") + "_" + str(i) + rng.choice(["", "", "a", BS, BS + "b", "B" + BS]) for i, l in enumerate(ol)}
     ps = {l: funny(rng, "S", str(i)) for i, l in enumerate(sl)}
     fams = sorted(set(g for s in (d.get("leafsyn") or {}).values() for g in s))
     pf = {f: funny(rng, "f", str(i)) for i, f in enumerate(fams)}
